@@ -15,6 +15,9 @@ def run(req):
     from .run import load_harness
     from .world import ConcreteWorld, HarnessReject
     mod = load_harness(req['property'])
+    import os
+    for k, v in getattr(mod, 'REPLAY_ENV', {}).items():     # must be set before the library (numba) is imported
+        os.environ.setdefault(k, v)
     cases = mod.cases(req.get('tier', 'quick'), req.get('seed', 0))
     case = [c for c in cases if c.name == req['case']]
     if not case:
